@@ -167,9 +167,9 @@ var propAssumptions = map[string][]string{
 	"C09": {hpkeAssumption, transportAssumption, "bounds: key lists of 1..3 (4) valid keys, symbolic one-byte ids (collisions chosen by the solver), suite subsets, target at every position or absent; other keys may reuse the target key pair under another config", "retried hello (verifC09Retry): <=2 keys, colliding key before or after the target"},
 	"C10": {transportAssumption, "concurrency layer: goroutines are coroutines; scheduling points are go/channel/select/sync/timer operations and harness yields; every choice among runnable goroutines and among ready select cases is a fork; no pre-emption between ordinary instructions", "native replay of schedule-dependent counterexamples is retried up to 20 times", "verifC10Timeout: context.WithTimeout(200 ms) over a transport that applies deadline values in virtual time", "verifC10Accepted: inspected connection (accepted ECH), cancellation after return, then change_cipher_spec / HelloRetryRequest / retried hello; verifC10CancelledAtEntry: context cancelled before NewConn with the hello buffered"},
 	"C11": {"oracle: draft section 4 layout written out in the harness", "ecdh X25519 key generation is stubbed with fresh symbolic key bytes", "bounds: ids/KEMs/suites fully symbolic, key lengths {0,1,4,32}, <=3 suites, public names of 1,2,3,8,239,240,254,255 bytes (0 and 256 refused), lists of 0..2 (3) configs, raw parser input <=20 (26) bytes", "second oracle: crypto/tls (interpreted from its SSA; natively the real one) parses the config list as a client and accepts config+key as EncryptedClientHelloKeys as a server, for configs from ConfigSpec.Bytes and from NewConfig; only configs crypto/tls can use (KEM 0x20, 32-byte key, two-label DNS public name)", "crypto/internal/hpke.SetupSender/SetupReceipient and X25519 arithmetic are stubbed (the oracle is used as a parser)", "outside: real handshakes (C01)", "verifC11Oversized: 200/220/260 concrete configs of 302 bytes"},
-	"C12": {"bounds: whole message symbolic with <=4 (7) bytes after the header (ID/flags pinned); one question or one answer with <=10..14 symbolic bytes; one RR of each of 21 types with <=5 (8) RDATA bytes; loop unwinding limit 300 per activation (the termination assertion)", "LOC float arithmetic is opaque", "third clause (verifC12Resolve): one answer RR with symbolic class/TTL, type in {A,AAAA,CNAME,HTTPS,NS,TXT,unknown} and <=3 (5) symbolic RDATA bytes, owner = a pointer to the queried name, served through the DoH seam to Resolver.Resolve: no panic", "verifC12Params: SvcParam key 0..8/unknown, declared length exact/+1/-1, value <=9 (13) bytes (16/32 for ipv6hint), optional second parameter; SOA tail 0/19/20/21 bytes; SRV/RRSIG names <=3 bytes; LOC 15..17 bytes", "verifC12Memory: count fields in {0,1,0x1000,0xffff}, body <=4 bytes; allocation = bytes requested by make/new/append growth in interpreted code (natively runtime.MemStats.TotalAlloc), bound 16 KiB + 1 KiB per input byte", "verifC12FarPointers: pointer offsets >= 256 into a 260-byte opaque RDATA", "outside: 64 KiB inputs"},
+	"C12": {"bounds: whole message symbolic with <=4 (7) bytes after the header (ID/flags pinned); one question or one answer with <=10..14 symbolic bytes; one RR of each of 21 types with <=5 (8) RDATA bytes; loop unwinding limit 300 per activation (the termination assertion)", "LOC float arithmetic is opaque", "third clause (verifC12Resolve): one answer RR with symbolic class/TTL, type in {A,AAAA,CNAME,HTTPS,NS,TXT,unknown} and <=3 symbolic RDATA bytes (both tiers: a fourth byte multiplies the paths by more than 100 and does not finish in the budget), owner = a pointer to the queried name, served through the DoH seam to Resolver.Resolve: no panic", "verifC12Params: SvcParam key 0..8/unknown, declared length exact/+1/-1, value <=9 (13) bytes (16/32 for ipv6hint), optional second parameter; SOA tail 0/19/20/21 bytes; SRV/RRSIG names <=3 bytes; LOC 15..17 bytes", "verifC12Memory: count fields in {0,1,0x1000,0xffff}, body <=4 bytes; allocation = bytes requested by make/new/append growth in interpreted code (natively runtime.MemStats.TotalAlloc), bound 16 KiB + 1 KiB per input byte", "verifC12FarPointers: pointer offsets >= 256 into a 260-byte opaque RDATA", "outside: 64 KiB inputs"},
 	"C13": {"oracle: reference RFC 1035 encoder with compression and field-wise equality in the harness", "bounds: all header bits, <=1 question, 1 (2) RRs of A/AAAA/NS/CNAME/PTR/OPT/HTTPS, names of <=1 (2) labels of 1..2 symbolic non-dot bytes, padding for every question-name length 0..130 x 4 OPT shapes, ResponseCode over all 2^8 x 2^32 values", "verifC13Exact: Message.Bytes equals a reference encoder byte for byte (names as \"\", 1..2 labels, trailing dot, 63-byte label)", "verifC13RefEncode: reference-written TXT (<=2 strings), MX, SOA, SRV, SVCB (<=2 parameters), HTTPS with keys 0/1/4/6/7 and two hints each, OPT (<=2 options); RDATA names in full or compressed; symbolic header flags", "verifC13MaxName: 255- and 254-octet names", "outside: MX/SOA/TXT/SRV/SVCB encoding (the encoder does not support them); x/net dnsmessage as second codec"},
-	"C14": {"DoH seam: dns.DoH is diverted to a harness hook (source overlay) that decodes the query actually built", "name forms are concrete (8 forms + 11 literal/hostile forms): string parsing of symbolic text is not attempted", "bounds: symbolic zone with per-query response code in {0,1,2,3,4,5,9} or answers: alias chain <=3 with loops through and past the origin, self-alias, alias to \".\", service records out of priority order with a target (incl. the queried host itself), an RRSet mixing both modes, poisoned answers with unrelated owner names, in-answer CNAME chains of 1..2 hops for A and HTTPS, AAAA answers; alias chains of 0..6 hops from host / host:port / scheme://host; name lengths 240..256 with and without prefix", "outside: arbitrary name strings", "verifC14Loops: 4 loop shapes x {host, host:port}; verifC14BadForms: 10 inputs that are no host names, 2 URL forms", "verifC14HostileTargets: alias / service targets with a 100-byte label, a 543-byte name, an empty label"},
+	"C14": {"DoH seam: dns.DoH is diverted to a harness hook (source overlay) that decodes the query actually built", "name forms are concrete (12 forms + 20 literal/hostile forms): string parsing of symbolic text is not attempted", "bounds: symbolic zone with per-query response code in {0,1,2,3,4,5,9} or answers: alias chain <=3 with loops through and past the origin, self-alias, alias to \".\", service records out of priority order with a target (incl. the queried host itself), an RRSet mixing both modes, poisoned answers with unrelated owner names, in-answer CNAME chains of 1..2 hops for A and HTTPS, AAAA answers; alias chains of 0..6 hops from host / host:port / scheme://host; name lengths 240..256 with and without prefix", "outside: arbitrary name strings", "verifC14Loops: 4 loop shapes x {host, host:port}; verifC14BadForms: 10 inputs that are no host names, 2 URL forms", "verifC14HostileTargets: alias / service targets with a 100-byte label, a 543-byte name, an empty label"},
 	"C15": {"oracle: the rules of the statement as a straight-line reference in the harness", "bounds: <=2 (3) HTTPS records (quick: only the first varies in every field), priority 0..2, target, port, no-default-alpn, ALPN with spare capacity, ECH, hints; <=2 addresses of 4/16 (5) bytes over a 2-value alphabet; ports 443/80 (8443,0); networks tcp,tcp4,udp6 (all six); early termination"},
 	"C16": {"DoH seam as C14; package clock timeNow set to a symbolic non-decreasing clock by the in-package harness", "real golang-lru 2Q cache code and sync.RWMutex (engine model) are executed", "bounds: min-TTL over <=3 answers with arbitrary 32-bit TTLs; histories of 4 (5) operations {lookup, advance clock by <=2^31 s, change zone, toggle upstream failure (transport error, SERVFAIL or response code 9)} on one name; zone shapes: 1..2 A records, no record, records without an answer", "verifC16Keys: two names x two types, concrete TTLs", "concurrency clause (verifC16Race): two goroutines Resolve the same name through one Resolver (cold or warm cache) and enumerate Targets; every schedule with at most 2 pre-emptions at synchronisation points (lock acquire/release, channel operations) is explored and a vector-clock happens-before monitor over all loads, stores, in-place appends and sort swaps reports unordered conflicting accesses; native replay under the Go race detector (-race)", "outside: pre-emption between ordinary instructions, more than 2 goroutines, more than 2 pre-emptions; the LRU library's internals are executed but only its lock operations are scheduling points", "verifC16Constructors: NewResolver x2, SetCacheSize(0) then SetCacheSize(1|2), working set of 3 names; verifC16ZeroTTLConcurrent: expired entry, TTL-0 answers, two concurrent lookups, <=2 pre-emptions", "verifC16FailureBesideSuccess: two overlapping lookups, first upstream query SERVFAIL, second TTL 3600, then a third lookup; <=2 pre-emptions"},
 	"C17": {"resolver injected through the context (transportResolver) by the in-package harness; DialFunc is a harness function with symbolic outcomes", "concurrency layer as C10 with deterministic scheduling (the property is about data, not order)", "bounds: <=2 HTTPS records (ECH on a symbolic subset) over 2 addresses, RequireECH/PublicName/caller ECH list/caller ServerName symbolic, outcomes {ok,error,ECH rejection with/without retry configs, bare or wrapped}, a retry answered by another retry list, MaxConcurrency 1", "verifC17AddressForms: 6 address forms (IPv6/IPv4 literals, trailing dot, padded list entry, a failing first name)"},
